@@ -122,3 +122,28 @@ Proof.
   match type of R with match ?u with _ => _ end => destruct u as [g|e] eqn:E end; [exfalso; exact R|].
   exists e. first [exact E | reflexivity].
 Qed.
+
+(* ---- the text level meets the call level ------------------------------------------------------------ *)
+From Boltons Require Import Model.C13_Text Proofs.C13_Text.
+
+(* The argument list written into the generated body, read back, is exactly the
+   invocation [inv_of_params] of the built function's own signature - the one
+   C13_forward and the call theorems are about. *)
+Theorem body_text_is_forwarding (render : name -> text) b :
+  (forall n, ident (render n) = true) ->
+  read_arglist (inv_text render b) = Some (inv_items render (inv_of_params (sg_params (fb_sig b)))).
+Proof.
+  intro RI. rewrite <- get_invocation_fb. apply inv_text_reads. exact RI.
+Qed.
+
+(* ... and the parameter list of the generated def line, read back, lists the
+   parameters of that signature by kind (defaults and annotations are re-attached to
+   the compiled function afterwards, see get_func) *)
+Theorem def_text_is_signature (render : name -> text) b :
+  (forall n, ident (render n) = true) ->
+  read_arglist (strip_ends (sig_text render b)) = Some (sig_items render b) /\
+  map p_name (sg_params (fb_sig b)) = all_names b.
+Proof.
+  intro RI. split; [apply sig_text_reads; exact RI|].
+  unfold fb_sig, mk_sig. cbn [sg_params]. apply mk_params_names.
+Qed.
